@@ -333,10 +333,11 @@ func dscp(cfg svcConfig) uint8 {
 }
 
 func clockDrift(cfg svcConfig) time.Duration {
-	if cfg.ClockDrift < 0 {
+	d := timemath.Duration(cfg.ClockDrift)
+	if !(cfg.ClockDrift >= 0) || (cfg.ClockDrift != 0 && d <= 0) {
 		logbase.Fatal(slog.Default(), "invalid clock drift value specified in config")
 	}
-	return timemath.Duration(cfg.ClockDrift)
+	return d
 }
 
 func syncConfig(cfg svcConfig) sync.Config {
